@@ -25,6 +25,10 @@ var blockMutations = []string{
 	"tx-unbalanced", "tx-bad-signature", "tx-wrong-key", "spend-missing", "double-spend-in-block", "double-spend-cross-block", "immature-coinbase", "locked-vote",
 }
 
+// ledgerLevel mutants pass block validation on arrival (their transactions are
+// individually valid) and are only refused when the block is attached.
+var ledgerLevel = map[string]bool{"spend-missing": true, "double-spend-in-block": true, "double-spend-cross-block": true, "immature-coinbase": true, "locked-vote": true}
+
 // MutStep: after honest step At, the Byzantine proposer offers a mutated block.
 type MutStep struct {
 	Kind string `json:"kind"`
@@ -478,14 +482,28 @@ func execC13(t *testing.T, plan any, r *simkit.Run) {
 						harness("mutation %s was expected to be ledger-invalid but the reference ledger accepts it (%v)", desc, perr)
 					}
 				}
+				mh := blk.Hash()
+				_, before := victim.Store.GetBlockHeader(&mh)
 				_, perr := victim.Process(blk)
 				r.Tracef("offer %s -> err=%v", desc, perr != nil)
+				if _, after := victim.Store.GetBlockHeader(&mh); before != nil && after == nil && !ledgerLevel[m.Kind] {
+					// header- and transaction-level rules are checked before a block is stored
+					r.Violate("invalid-block-stored", m.Kind, "block breaking one rule [%s] was accepted into the victim's block store (ProcessBlock error: %v)", desc, perr)
+					return
+				}
 				r.Count("fault.byzantine_block."+m.Kind, 1)
 				r.Count("fault.byzantine_block", 1)
 				if perr == nil {
 					r.Count("probe.mutant_not_rejected_at_arrival", 1)
 				}
-				bad = append(bad, offered{blk.Hash(), desc, m.Kind})
+				if _, twin := w.Blocks[mh]; twin {
+					// the block signature and transaction witnesses are not part of the block hash:
+					// a mutant that only differs there shares its hash with a valid honest block,
+					// so "this hash is on the main chain" says nothing about the mutant
+					r.Count("probe.mutant_shares_hash_with_honest_block", 1)
+				} else {
+					bad = append(bad, offered{mh, desc, m.Kind})
+				}
 				checkBad("offer " + desc)
 				if r.Failed() {
 					return
